@@ -18,7 +18,7 @@ META = dict(
     bounds=dict(quick='(a) bin_edges setter on 3, 4 and 5 symbolic real edges: every accepting path implies strictly increasing, equally spaced edges (tolerance 1e-9); '
                       '(b) binning of one symbolic real sample against uniform edge sets [0,2,4,6], [-4,0,4], [10,11,12,13,14], [0,0.5,1]: the counted bin k satisfies e_k <= x < e_k+1 (last edge inclusive), no count outside; '
                       '(c) _compute on every count table with <= 4 counted traces over 3 bins x 2 classes (plus discarded traces): equals H(B) - H(B|V) in nats, >= 0, zero for product tables',
-                thorough='(c) up to 5 traces and 3 classes'),
+                thorough='(c) up to 6 traces with 2 classes, 5 traces with 3 classes'),
     assumptions=['(a), (b): symbolic execution with z3 deciding path feasibility and the obligations; (c): bounded exhaustive enumeration of count tables pushed through the real _compute (concrete evaluation)',
                  'exact arithmetic for (x - min) * norm (edge sets whose norm is exactly representable)'],
     outside=['float edge sets where (x - min) * norm rounds across an edge', 'more than 5 traces in (c)'],
@@ -34,9 +34,9 @@ def prepare(tier, seed):
 def jobs(tier, seed):
     js = [dict(name=f'setter-{k}edges', kind='setter', k=k) for k in (3, 4, 5)]
     js += [dict(name=f'binning-{i}', kind='bin', edges=e) for i, e in enumerate(EDGESETS)]
-    js += [dict(name=f'compute-n{n}', kind='compute', n=n, K=2) for n in range(1, 5 if tier == 'quick' else 6)]
+    js += [dict(name=f'compute-n{n}', kind='compute', n=n, K=2) for n in range(1, 5 if tier == 'quick' else 7)]
     if tier == 'thorough':
-        js.append(dict(name='compute-n4-K3', kind='compute', n=4, K=3))
+        js += [dict(name=f'compute-n{n}-K3', kind='compute', n=n, K=3) for n in (4, 5)]
     return js
 
 
